@@ -105,7 +105,7 @@ def run(ctx):
         frozen = k in FROZEN
         ctx.ob("E10.diff", k, frozen, "body differs between the builds at element %d: blst %s / rust %s%s" % (d, str(xa)[:140], str(xb)[:140], (" - frozen exception: " + FROZEN[k]) if frozen else ""), where=where(Pa.fns[k]), weak=frozen)
     ctx.ob("E10.diff", "summary", True, "%d bodies identical modulo backend crate name, %d differ" % (nsame, ndiff), sample={"identical": nsame, "different": ndiff})
-    ctx.floor("E10.diff", "bodies compared", nsame + ndiff, 1000)
+    ctx.floor("E10.diff", "bodies compared", nsame + ndiff, 800)
     # constants identical
     from .common import collect_constants
 
